@@ -263,7 +263,7 @@ def vc_tape_getattr(H):
             if kind == 'not-a-blade':
                 ctx.oblige('C11: a non-blade attribute raises AttributeError', raised is not None)
                 if raised:
-                    raise raised
+                    ctx.notes.append('expected-raise'); raise raised
                 return r
             if raised or not isinstance(r, Tape):
                 ctx.oblige('C11: coefficient access returns a tape', False)
